@@ -248,6 +248,14 @@ func (g *Gen) fill(v reflect.Value, m Mode, depth int) {
 			}
 			g.fill(e, es, depth+1)
 			mp.SetMapIndex(k, e)
+			// keys that hold pointers: every second entry gets a twin whose key is a fresh copy (another
+			// pointer, equal contents) with another element: two keys, not one
+			if keyHasPointer(v.Type().Key()) && i%2 == 0 && n <= 60 {
+				k2 := DeepClone(k)
+				e2 := reflect.New(v.Type().Elem()).Elem()
+				g.fill(e2, ModeRandom, depth+1)
+				mp.SetMapIndex(k2, e2)
+			}
 		}
 		v.Set(mp)
 	case reflect.Struct:
